@@ -2,14 +2,14 @@
    AST on every run) are the expressions the hand-written model uses.  Every lemma is an obligation of the tie: when an
    expression of the code changes, the generated file changes with it and the lemma stops compiling even if no sampled input
    tells old and new behaviour apart.  Statements: the model's definition equals the translated expression, for all arguments. *)
-From Aldy Require Import Base Consts Norm Exprs_norm.
+From Aldy Require Import Base Consts Norm Exprs_norm TieTac.
 Import List.
 Open Scope Q_scope.
 
 (* ---- coverage.py: _normalize_coverage *)
 Lemma norm_region_tied : forall ratio s pd,
-  region_value ratio s pd = let p := (pd / norm_profile_div)%Q in if Qeqb p 0 then 0 else norm_region ratio (inZ s) p.
-Proof. reflexivity. Qed.
+  (region_value ratio s pd == let p := (pd / norm_profile_div)%Q in if Qeqb p 0 then 0 else norm_region ratio (inZ s) p)%Q.
+Proof. first [reflexivity | intros; unfold region_value, norm_region, norm_profile_div; tie_q]. Qed.
 
 Lemma norm_ratio_tied : forall nv regions cn dg dn, range_sum dn (fst cn) (snd cn) <> 0%Z ->
   Qeqb (norm_ratio nv (inZ (range_sum dn (fst cn) (snd cn)))) 0 = false ->
